@@ -53,10 +53,11 @@ let run (id : string) (ops : string list) (out : out_channel) =
   let tr = ref (C09Model.run_variant d f k y mops) in
   let tags = Hashtbl.create 8 in
   let stopped = ref false in
+  let nprinted = ref 0 in
   Stdlib.List.iteri (fun i po ->
     if not !stopped then
     match po with
-    | None -> Printf.fprintf out "%s\t%d\tev=-;used=-\n" id i
+    | None -> incr nprinted; Printf.fprintf out "%s\t%d\tev=-;used=-\n" id i
     | Some _ ->
       (match !tr with
        | [] -> stopped := true
@@ -75,8 +76,51 @@ let run (id : string) (ops : string list) (out : out_channel) =
            | C09Model.EPanic _ -> add "panic"; stopped := true
            | C09Model.ETag t -> Hashtbl.replace tags (tag_name (int_of_z t)) ()) evs;
          if !first then Buffer.add_char buf '-';
+         incr nprinted;
          if !stopped then Printf.fprintf out "%s\t%d\tev=%s;used=-\n" id i (Buffer.contents buf)
          else Printf.fprintf out "%s\t%d\tev=%s;used=%d\n" id i (Buffer.contents buf) (int_of_z used))) parsed;
+  (* the stream statement (Model/C09Spec.v, C09_stream_statement) evaluated on this case: the
+     history is rebuilt with ghost offsets from s: and isn:, checked to map back to the very ops,
+     and the verdict of hist_okb is printed as the last observation (the harness prints spec=ok) *)
+  let sarg = Stdlib.List.fold_left (fun acc o -> match split_on ':' o with ["s"; h] -> Some h | ["s"] -> Some "" | _ -> acc) None ops in
+  let iarg = Stdlib.List.fold_left (fun acc o -> match split_on ':' o with ["isn"; n] -> Some (int_of_string n) | _ -> acc) None ops in
+  let verdict =
+    match sarg, iarg with
+    | Some sh, Some isn ->
+      let sbytes = bytes_of_hex sh in
+      let slen = String.length sh / 2 in
+      let hop_of (o : string) : C09Spec.hop option option =   (* None: not expressible; Some None: ignored op *)
+        match split_on ':' o with
+        | ["cfg"; a] -> (match split_on ',' a with [p; q] -> Some (Some (C09Spec.HCfg (zi p, zi q))) | _ -> None)
+        | ["keep"; a] -> Some (Some (C09Spec.HKeep (pairs (split_on ',' a))))
+        | ["keep"] -> Some (Some (C09Spec.HKeep []))
+        | ["fwo"; a] -> (match split_on ',' a with [t; tc] -> Some (Some (C09Spec.HFlush (zi t, zi tc))) | _ -> None)
+        | ["fco"; t] -> Some (Some (C09Spec.HFlush (zi t, zi t)))
+        | ["fall"] -> Some (Some C09Spec.HFlushAll)
+        | "s" :: _ | "isn" :: _ -> Some None
+        | ["seg"; a] -> (match split_on ',' a with
+            | [sq; fl; ts; h] ->
+              let f = int_of_string fl and n = String.length h / 2 in
+              if f land 8 <> 0 then None
+              else if f land 1 <> 0 then
+                (if f land 6 <> 0 then None else Some (Some (C09Spec.HSyn (z_of_int n, zi ts))))
+              else
+                let d = (int_of_string sq - isn - 1) land 0xFFFFFFFF in
+                let d = if d >= 0x80000000 then d - 0x100000000 else d in
+                if d < 0 || d + n > slen then None
+                else Some (Some (C09Spec.HData (z_of_int d, z_of_int n, f land 2 <> 0, f land 4 <> 0, zi ts)))
+            | _ -> None)
+        | _ -> None in
+      let hs = Stdlib.List.map hop_of ops in
+      if Stdlib.List.exists (fun x -> x = None) hs then "ok"
+      else begin
+        let hops = Stdlib.List.filter_map (fun x -> match x with Some (Some h) -> Some h | _ -> None) hs in
+        let back = Stdlib.List.map (C09Spec.op_of sbytes (z_of_int isn)) hops in
+        if back <> mops then "ok"   (* not a consistent history of (S, isn): statement does not apply *)
+        else if C09Spec.hist_ok_variant d f k y sbytes (z_of_int isn) hops then "ok" else "FAIL"
+      end
+    | _ -> "ok" in
+  Printf.fprintf out "%s\t%d\tspec=%s\n" id !nprinted verdict;
   let tl = Hashtbl.fold (fun k () acc -> k :: acc) tags [] in
   if tl <> [] then
     Printf.fprintf out "%s\ttags\t%s\n" id (String.concat "," (Stdlib.List.sort compare tl))
